@@ -78,7 +78,8 @@ func analyzers(r *schemahcl.Resource) ([]sqlcheck.Analyzer, error) {
 			// Detect sequence of changes using temporary table and transform them to one ModifyTable change.
 			// See: https://www.sqlite.org/lang_altertable.html#making_other_kinds_of_table_schema_changes.
 			for i := 0; i < len(p.File.Changes); i++ {
-				if i+3 >= len(p.File.Changes) {
+				// The statement between "CREATE" and "DROP" copies the rows and does not change the schema.
+				if i+3 >= len(p.File.Changes) || len(p.File.Changes[i+1].Changes) != 0 {
 					changes = append(changes, p.File.Changes[i])
 					continue
 				}
@@ -136,7 +137,7 @@ func modifyUsingTemp(c1, c2, c3 *sqlcheck.Change) (from, to *schema.Table, _ boo
 	// "RENAME T" is expected after "DROP T".
 	case len(c3.Changes) == 1 && isRenameT(c3.Changes[0], prefixed, name):
 	// In case no parser is attached, "RENAME T" will be presented as "DROP T" and "ADD T".
-	case len(c3.Changes) == 2 && isDropT(c3.Changes[0], prefixed) && isAddT(c3.Changes[1], name):
+	case len(c3.Changes) == 2 && isDropT(c3.Changes[0], prefixed) && isAddT(c3.Changes[1], name) && c3.Changes[1].(*schema.AddTable).T.Name == name:
 	default:
 		return nil, nil, false
 	}
